@@ -223,7 +223,22 @@ func init() {
 							viol("one-document-write", fmt.Sprintf("FindOneAndUpdate(%s).sort(%s) modified _ids [%s] (err %v), the first of the ordering is _id %v", J(f), J(spec), idsOf(marked), err, first), map[string]interface{}{"filter": J(f), "sort": J(spec)})
 						}
 						w3.Close()
-						atomic.AddInt64(&oneDocWrites, 2)
+						w4 := world.New()
+						c4 := w4.C("d", "c")
+						for _, d := range docs {
+							_, _ = c4.InsertOne(w4.Ctx, d)
+						}
+						var prev bson.D
+						err = c4.FindOneAndReplace(w4.Ctx, f, bD("replaced", true), options.FindOneAndReplace().SetSort(spec)).Decode(&prev)
+						var hit []bson.D
+						if cur, e := c4.Find(w4.Ctx, bD("replaced", true)); e == nil {
+							_ = cur.All(w4.Ctx, &hit)
+						}
+						if err != nil || len(hit) != 1 || refmodel.Cmp(refmodel.GetPath(hit[0], "_id"), first) != 0 || refmodel.Cmp(refmodel.GetPath(prev, "_id"), first) != 0 {
+							viol("one-document-write", fmt.Sprintf("FindOneAndReplace(%s).sort(%s) replaced _ids [%s] and returned %s (err %v), the first of the ordering is _id %v", J(f), J(spec), idsOf(hit), J(prev), err, first), map[string]interface{}{"filter": J(f), "sort": J(spec)})
+						}
+						w4.Close()
+						atomic.AddInt64(&oneDocWrites, 3)
 					}
 				}
 				for _, spec := range invalid {
@@ -351,6 +366,10 @@ func init() {
 							map[string]interface{}{"collection_sequence": b.seq, "deleted_positions": b.del, "indexed": b.indexed, "reloaded": b.reload, "descending_id": b.descID, "sort": J(spec), "skip": win[0], "limit": win[1]})
 					}
 				}
+			}
+			// distinct over _id (unique values, inserted in descending order in some variants) is ascending all the same
+			if vals, err := coll.Distinct(w.Ctx, "_id", bD()); err != nil || J(bson.A(vals)) != J(bson.A(refmodel.Distinct(live, "_id"))) {
+				r.Violation("distinct:larger-or-deleted-from", fmt.Sprintf("collection (%s): Distinct(_id) = %s (err %v), expected %s", b.name, J(bson.A(vals)), err, J(bson.A(refmodel.Distinct(live, "_id")))), map[string]interface{}{"collection_sequence": b.seq, "deleted_positions": b.del, "descending_id": b.descID})
 			}
 			// natural order after deletions
 			all, _ := findAll(w.Ctx, coll)
